@@ -6,7 +6,7 @@ from ..workloads import shapes as W9
 
 MANIFEST = dict(
     technique='runtime contracts on visit_*/get_*/to_list/find_* vs reference recursion over left/right; exhaustive shape workload',
-    text="Every call of the three traversals and of the look-up methods made by the workload is decided by a monitor that recomputes the defining order from the link structure; the workload drives every tree shape up to the bound, every STOP position and every start node, so the claim is 'held on all shapes <= N nodes and on the random larger ones observed', not a proof for all sizes.",
+    text="Every call of the three traversals and of the look-up methods made by the workload is decided by a monitor that recomputes the defining order from the link structure; the workload drives every tree shape up to the bound, every STOP position and every start node, and mutation histories (queries interleaved with rotate / subtree moves between trees / wrapping / swapping / detaching through the public API, so that anything a node cached is stale), so the claim is 'held on all shapes <= N nodes and on the random larger ones observed', not a proof for all sizes.",
     note="Trusts CPython and our reference recursion; node classes are the repository's own.",
     ref='DESIGN.md 3/C14',
 )
